@@ -548,8 +548,14 @@ func SpecLeafIndex(n int64) int64 {
 // SpecSplitIndex inverts the dense layout: the stored position index holds the hash of the
 // complete subtree of 2^level records ending with record n (binary search on SpecLeafIndex).
 func SpecSplitIndex(index int64) (level int, n int64) {
-	lo, hi := int64(0), index // SpecLeafIndex(index) >= index
-	for lo < hi {             // largest n with SpecLeafIndex(n) <= index
+	// SpecLeafIndex(n) = 2n - popcount(n) >= 2n - 63, so the answer is at most (index+63)/2;
+	// the bound also keeps 2*mid inside int64 (index < 2^63), which the naive bound hi = index
+	// did not (positions above 2^62 made the search go wrong)
+	lo, hi := int64(0), index/2+32
+	if hi > 1<<62-1 {
+		hi = 1<<62 - 1
+	}
+	for lo < hi { // largest n with SpecLeafIndex(n) <= index
 		mid := lo + (hi-lo+1)/2
 		if SpecLeafIndex(mid) <= index {
 			lo = mid
